@@ -155,7 +155,10 @@ class FsScenario(Scenario):
                 run.exec_op(op)
             run.exec_op(["drain"])
             res["n_ops"] = run.opi + 1
-            res["replay"] = run.oracle_replay(tree0)
+            res["ever_paths"] = sorted(run.ever)
+            if run.backend == "polling":
+                sim.rec("events-sorted", sorted(e["shape"] for e in run.events))
+            res["replay"] = run.oracle_replay(tree0) if run.backend == "inotify" else None
             real = run.scan("root")
             res["real"] = real
             mt = {p: k for p, (k, _) in run.model.t.items() if fm.is_under(p, "root") and p != "root"}
@@ -168,6 +171,7 @@ class FsScenario(Scenario):
             run.phase = "teardown"
             obs.stop()
             obs.join()
+            res["nonascii"] = any(not p.isascii() for e in run.events for p in (e["shape"][2], e["shape"][3]))
             res["alive_lib"] = [t.name for t in sim.tasks if t.kind == "lib" and t.state != DONE]
             res["open_fds"] = run.kshim.open_fds()
             res["fd_misuse"] = list(run.kshim.violations)
@@ -179,7 +183,7 @@ class FsScenario(Scenario):
             finally:
                 run.cleanup()
             sample = {"pre": case["pre"], "ops": case["ops"], "events": [e["shape"] for e in run.events[:40]]}
-            return v, {"sample": sample, "hist_key": key_of([case["pre"], case["ops"], case["watch"]])}
+            return v, {"sample": sample, "hist_key": key_of([case["pre"], case["ops"], case["watch"]]), "nontrivial": bool(res.get("nonascii"))}
 
         try:
             return self.simulate(case, sched_seed, trace, run.install, main, finish)
@@ -390,4 +394,125 @@ class C07(FsScenario):
                 v.append(Violation("root-deleted", "C07:threads-alive-after-root-deleted:" + ",".join(sorted({n.split('#')[0] for n in res["alive_after_rmroot"]})), f"{res['alive_after_rmroot']}"))
             if res["events_after_rmroot"]:
                 v.append(Violation("root-deleted", "C07:events-after-root-deleted", f"{res['events_after_rmroot'][:5]}"))
+        return v
+
+
+C14_SHAPES = [
+    [["root", "d"], ["root/a", "d"], ["root/a/f", "f"]],
+    [["a", "d"], ["a/root", "d"], ["a/root/a", "d"], ["b", "f"]],
+    [["root", "d"], ["root/b", "d"], ["root/b/root", "d"], ["root/b/root/b", "f"]],
+    [["a", "f"]],
+]
+
+
+class C14(FsScenario):
+    prop = "C14"
+    design_ref = "DESIGN.md 4/C14"
+    rule = ("FS-world with colliding name universes: root given as the relative path 'root' (str or bytes, chdir into the scratch top) or absolute, entry names from {root, a, b} to depth 4 so "
+            "that a destination path string recurs inside its descendants' paths; histories of mkdir/makedirs/mkfile/rename/move-in, drained after every operation; distinct = distinct "
+            "(history, interleaving) digests; non-trivial = pre-emption taken or short read fired")
+    level_text = ("System-level half of C14 through the real pipeline: after every paced directory rename / move-in the delivered synthetic events must be exactly one per descendant in the model, "
+                  "with the descendant's real new path, source = old directory path + same relative path, right flavour, parents before children, all marked synthetic; afterwards probes in "
+                  "every directory check the re-keyed watch map. The two generator functions alone are pure and not separately decided.")
+    level_note = "function-level exhaustive enumeration over trees is outside this technique (pure function); only trees reached through the pipeline are judged"
+    names = ("root", "a", "b")
+    paced_share = 1.0
+    full_share = 0.1
+    nonrec_share = 0.0
+    max_ops = 9
+    weights = {"mkfile": 3, "mkdir": 3, "makedirs": 3, "rename": 6, "movein_tree": 2, "moveout": 1, "unlink": 1}
+
+    def gen_watch(self, cfg):
+        w = super().gen_watch(cfg)
+        w["spelling"] = cfg.choice(["rel", "rel", "abs"])
+        w["recursive"] = True
+        return w
+
+    def gen_case(self, seed, tier, idx):
+        old = fm.TREE_SHAPES
+        fm.TREE_SHAPES = C14_SHAPES
+        try:
+            rng = random.Random(f"{seed}:ops")
+            case = super().gen_case(seed, tier, idx)
+            # deeper pre-existing trees so that renames have colliding descendants
+            m = fm.Model()
+            pre = fm.gen_ops(random.Random(f"{seed}:pre"), m, rng.randrange(2, 8), names=self.names, max_depth=4, paced=False, allow={"mkdir", "mkfile", "makedirs"})
+            m.drain()
+            case["pre"] = pre
+            w = dict(self.weights)
+            case["ops"] = fm.gen_ops(rng, m, rng.randrange(1, self.max_ops), names=self.names, max_depth=4, weights=w, paced=True, drain_each=True)
+            case["paced"] = True
+            return case
+        finally:
+            fm.TREE_SHAPES = old
+
+    def judge(self, run, res, sim, verdict):
+        v = generic_violations("C14", sim, verdict, res)
+        if not res.get("done"):
+            return v
+        for c in run.oracle_contract():
+            if c["op"][0] not in ("rename", "movein_tree"):
+                continue
+            syn = [x for x in c["missing"] + c["extra"] + c["dup"] if x[4]]
+            if syn:
+                what = ("missing" if any(x[4] for x in c["missing"]) else "") + ("extra" if any(x[4] for x in c["extra"]) else "") + ("dup" if c["dup"] else "")
+                v.append(Violation("synthetic", f"C14:synthetic-events:{c['op'][0]}:{what}", f"{c}"))
+                break
+        # parents before children, per operation
+        for c in run.contracts:
+            if c["op"][0] not in ("rename", "movein_tree"):
+                continue
+            seen = set()
+            top = c["op"][2]
+            for e in run.events:
+                if e["opi"] != c["opi"] or e["h"] != 0 or not e["shape"][4]:
+                    continue
+                d = e["shape"][3] or e["shape"][2]
+                par = fm.parent(d)
+                if par != top and fm.is_under(par, top) and par not in seen:
+                    v.append(Violation("synthetic-order", "C14:child-before-parent", f"{e['shape']} delivered before the event for {par}; op={c['op']}"))
+                    break
+                seen.add(d)
+        pr = res.get("probes")
+        if pr and (pr["missing"] or pr["wrong_path"]):
+            v.append(Violation("rekey", "C14:probe-after-rename:" + ("missing" if pr["missing"] else "") + ("wrong-path" if pr["wrong_path"] else ""), f"{pr}; ops={run.case['ops']} pre={run.case['pre']}"))
+        return v
+
+
+C19_NAMES = ("a", "é", "\udcff\udcfe", "b c")
+
+
+class C19(FsScenario):
+    prop = "C19"
+    design_ref = "DESIGN.md 4/C19"
+    rule = ("path configurations drawn per run: root as str / bytes / pathlib.Path x absolute / relative / trailing slash; names from {a, e-acute, the two bytes FF FE (invalid UTF-8), 'b c'}; "
+            "operation histories of C03; backend = inotify observer (FS-world) or polling observer on the real scratch tree under the virtual clock; distinct = distinct (history, configuration, "
+            "interleaving) digests; non-trivial = non-ASCII or undecodable name occurred in a delivered path, or a pre-emption was taken")
+    level_text = ("Invariant over threaded runs of both observers: every non-empty src/dest path of every delivered event has the type of the scheduled path (bytes iff bytes) and, encoded with the "
+                  "file-system encoding, equals the encoded root joined with the real relative name of an entry the history touched.")
+    level_note = "polling backend runs on the real tmpfs with the virtual clock driving its poll timer; tmpfs accepts arbitrary byte names"
+    names = C19_NAMES
+    with_probes = False
+    nonrec_share = 0.2
+    budget = {"quick": 30, "thorough": 600, "minimise": 90}
+
+    def gen_watch(self, cfg):
+        w = super().gen_watch(cfg)
+        w["root_kind"] = cfg.choice(["str", "bytes", "path"])
+        w["spelling"] = cfg.choice(["abs", "rel", "slash"])
+        w["backend"] = cfg.choice(["inotify", "inotify", "polling"])
+        return w
+
+    def judge(self, run, res, sim, verdict):
+        v = generic_violations("C19", sim, verdict, res)
+        if run.type_errors:
+            v.append(Violation("path-type", f"C19:wrong-path-type:{run.type_errors[0][1]}:{run.w['root_kind']}:{run.w.get('backend', 'inotify')}", f"{run.type_errors[:3]} with root {run.w}"))
+        ever = set(res.get("ever_paths", ()))
+        bad = []
+        for e in run.events:
+            for p in (e["shape"][2], e["shape"][3]):
+                if p and (p.startswith("?") or (ever and p not in ever)):
+                    bad.append((e["shape"], p))
+        if bad:
+            v.append(Violation("path-name", f"C19:path-does-not-name-entry:{run.w['root_kind']}:{run.w['spelling']}:{run.w.get('backend', 'inotify')}", f"{bad[:3]} with root {run.w}; ops={run.case['ops']}"))
         return v
